@@ -5138,6 +5138,33 @@ func runErrorBranchExits(rr *RuleRun) {
 	eachFuncBody(c, allPkgs, func(pkg string, fd *ast.FuncDecl, body *ast.BlockStmt) {
 		info := c.Info(pkg)
 		inspectNoLit(body, func(n ast.Node) bool {
+			if fs, isFor := n.(*ast.ForStmt); isFor && fs.Cond != nil {
+				// for …; err == nil; … : leaving the loop is the error branch
+				for _, cj := range conjuncts(fs.Cond) {
+					cb, ok := ast.Unparen(cj).(*ast.BinaryExpr)
+					if !ok || cb.Op != token.EQL || !isNilIdent(info, cb.Y) {
+						continue
+					}
+					eo := objOf(info, cb.X)
+					if eo == nil || !isErrorType(eo.Type()) {
+						continue
+					}
+					key := fmt.Sprintf("%s.%s/for %s == nil@%s", pkg, declName(fd), eo.Name(), c.PosStr(fs.Pos()))
+					readAfter := false
+					ast.Inspect(body, func(m ast.Node) bool {
+						if id, ok := m.(*ast.Ident); ok && id.Pos() > fs.End() && info.Uses[id] == eo {
+							readAfter = true
+						}
+						return true
+					})
+					if readAfter {
+						rr.OKTrivial(key, fs.Pos(), "the error that ends the loop is looked at after it")
+					} else {
+						rr.Violation(key, fs.Pos(), fmt.Sprintf("the loop runs while %s == nil and %s is never looked at after the loop: whatever error ends it is taken for a normal end, and the function continues with a truncated result as if the failed step had succeeded", eo.Name(), eo.Name()))
+					}
+				}
+				return true
+			}
 			is, ok := n.(*ast.IfStmt)
 			if !ok {
 				return true
@@ -5430,4 +5457,13 @@ func runProductPrecision(rr *RuleRun) {
 	if n == 0 {
 		rr.Broken("stale anchor: Value.Multiply does not call big.Float.Mul")
 	}
+}
+
+// conjuncts splits a condition on top-level &&.
+func conjuncts(e ast.Expr) []ast.Expr {
+	e = ast.Unparen(e)
+	if be, ok := e.(*ast.BinaryExpr); ok && be.Op == token.LAND {
+		return append(conjuncts(be.X), conjuncts(be.Y)...)
+	}
+	return []ast.Expr{e}
 }
